@@ -158,6 +158,66 @@ def prove(prop):
     return dict(ok=not problems, obligations=n, discharged=d, problems=problems, build_log="")
 
 
+# ---------------------------------------------------------------------------
+# source pins: a fingerprint (AST without positions and docstrings) of every module of the library at the time the
+# model was last validated against it.  A changed fingerprint is NOT an alarm (harmless rewrites change it too); it
+# tells the check that the code it was tied to has moved, and the check answers by exploring more (DEEPEN).
+# ---------------------------------------------------------------------------
+
+DEEPEN = 1
+
+
+def fingerprint_source(text):
+    import ast
+    tree = ast.parse(text)
+    for node in ast.walk(tree):
+        if isinstance(node, (ast.FunctionDef, ast.ClassDef, ast.Module, ast.AsyncFunctionDef)) and node.body \
+                and isinstance(node.body[0], ast.Expr) and isinstance(getattr(node.body[0], "value", None), ast.Constant) \
+                and isinstance(node.body[0].value.value, str):
+            node.body = node.body[1:] or [ast.Pass()]
+    return hashlib.sha256(ast.dump(tree, include_attributes=False).encode("utf-8")).hexdigest()[:16]
+
+
+def source_fingerprints(repo=None):
+    repo = repo or REPO
+    out = {}
+    base = os.path.join(repo, "mammoth")
+    for dp, _, fns in os.walk(base):
+        for fn in sorted(fns):
+            if fn.endswith(".py"):
+                path = os.path.join(dp, fn)
+                rel = os.path.relpath(path, repo)
+                try:
+                    out[rel] = fingerprint_source(open(path, encoding="utf-8").read())
+                except SyntaxError:
+                    out[rel] = "syntax-error"
+    return out
+
+
+def changed_sources():
+    """modules whose fingerprint differs from gen/pins.json (added and removed modules included)"""
+    pins_path = os.path.join(VERIF, "gen", "pins.json")
+    try:
+        pins = json.load(open(pins_path))["fingerprints"]
+    except Exception:
+        return []
+    now = source_fingerprints()
+    return sorted(k for k in set(pins) | set(now) if pins.get(k) != now.get(k))
+
+
+def anchored_files(prop):
+    for line in open(os.path.join(VERIF, "properties.jsonl")):
+        p = json.loads(line)
+        if p["id"] == prop:
+            return list((p.get("anchors") or {}).get("files") or [])
+    return []
+
+
+def deepen(n):
+    """number of cases to explore: n on the pinned tree, DEEPEN * n when the anchored code or the proof side moved"""
+    return int(n * DEEPEN)
+
+
 def driver_available():
     return os.path.exists(DRIVER)
 
